@@ -256,6 +256,7 @@ def tensor_case_st(draw):
         tInv=draw(pgroup.transform_st(rank, allow_noninvolutive=True)),
         use_default_rank=draw(st.booleans()),
         rs=draw(st.integers(0, 2 ** 32)),
+        scale=draw(st.sampled_from([1.0, 1.0, 1.0, 1e-13, 1e-16, 1e-25, 1e9, 1e-40])),
     )
 
 
@@ -273,10 +274,16 @@ def check_tensor(case):
     tTR, tInv = pgroup.wb_transform(dTR), pgroup.wb_transform(dInv)
     rng = rng_of(case["rs"])
     shape = tuple(case["lead"]) + (3,) * rank
-    x = crandom(rng, shape, case["cplx"])
+    # magnitude of the data: results are handled in natural, SI or atomic units, so "all data" includes tensors whose
+    # components are far from O(1); every comparison below is made relative to this scale
+    scale = float(case.get("scale", 1.0))
+    x = crandom(rng, shape, case["cplx"]) * scale
     if not case["cplx"]:
         x = np.array(x.real)
     x0 = x.copy()
+
+    def rds(u, v):
+        return reldiff(np.asarray(u) / scale, np.asarray(v) / scale)
     syms = g.symmetries
     elems = _elements_of(g)
     n = len(syms)
@@ -287,7 +294,7 @@ def check_tensor(case):
         if not np.array_equal(x, x0):
             raise Violation("mutates-input", "transform_tensor changed its argument")
         exp = pgroup.ref_transform_tensor(x0, rank, Of, tr, dTR, dInv)
-        d = reldiff(got, exp)
+        d = rds(got, exp)
         if d > TOL:
             raise Violation("transform-vs-explicit", f"rank={rank} TR={tr} Inv={bool(s.Inv)} diff={d:.2e}")
         Tx.append(got)
@@ -301,7 +308,7 @@ def check_tensor(case):
         P = g.symmetrize_tensor(x, transformTR=tTR, transformInv=tInv, rank=rank)
     if not np.array_equal(x, x0):
         raise Violation("mutates-input", "symmetrize_tensor changed its argument")
-    d = reldiff(P, Pref)
+    d = rds(P, Pref)
     if d > TOL:
         raise Violation("symmetrize-vs-explicit", f"group average differs by {d:.2e} (order {n}, rank {rank})")
     if lawful:
@@ -313,23 +320,23 @@ def check_tensor(case):
         for i, j in pairs:
             lhs = syms[i].transform_tensor(Tx[j], rank, transformTR=tTR, transformInv=tInv)
             rhs = (syms[i] * syms[j]).transform_tensor(x, rank, transformTR=tTR, transformInv=tInv)
-            d = reldiff(lhs, rhs)
+            d = rds(lhs, rhs)
             if d > TOL:
                 raise Violation("action-law", f"T_g1(T_g2 x) != T_(g1*g2) x  diff={d:.2e} rank={rank}")
         # 3. projection
         PP = g.symmetrize_tensor(P, transformTR=tTR, transformInv=tInv, rank=rank)
-        d = reldiff(PP, P)
+        d = rds(PP, P)
         if d > TOL:
             raise Violation("idempotence", f"symmetrize(symmetrize(x)) differs by {d:.2e}")
         for s in syms:
-            d = reldiff(s.transform_tensor(P, rank, transformTR=tTR, transformInv=tInv), P)
+            d = rds(s.transform_tensor(P, rank, transformTR=tTR, transformInv=tInv), P)
             if d > TOL:
                 raise Violation("output-not-invariant", f"symmetrised tensor changes by {d:.2e} under an element")
-        y = crandom(rng, shape, case["cplx"])
+        y = crandom(rng, shape, case["cplx"]) * scale
         if not case["cplx"]:
             y = np.array(y.real)
         yinv = sum(pgroup.ref_transform_tensor(y, rank, e["O"], e["tr"], dTR, dInv) for e in ref.elements) / ref.order
-        d = reldiff(g.symmetrize_tensor(yinv, transformTR=tTR, transformInv=tInv, rank=rank), yinv)
+        d = rds(g.symmetrize_tensor(yinv, transformTR=tTR, transformInv=tInv, rank=rank), yinv)
         if d > TOL:
             raise Violation("fixed-point", f"an invariant tensor is changed by symmetrisation by {d:.2e}")
     # 4. Result-level symmetrisation
@@ -337,7 +344,7 @@ def check_tensor(case):
         Es = [0.1 * np.arange(m) + 0.3 * i for i, m in enumerate(case["lead"])]
         res = EnergyResult(Es, x.copy(), transformTR=tTR, transformInv=tInv, rank=rank)
         sres = g.symmetrize(res)
-        d = reldiff(sres.data, Pref)
+        d = rds(sres.data, Pref)
         if d > TOL:
             raise Violation("symmetrize-result", f"PointGroup.symmetrize(EnergyResult) differs by {d:.2e}")
         if not np.array_equal(res.data, x0):
@@ -352,12 +359,12 @@ def check_tensor(case):
     prod_in = np.prod(xs, axis=0)
     exp = np.prod([pgroup.ref_apply_transform(d, xi) for d, xi in zip(ds, xs)], axis=0)
     got = tp(prod_in.copy())
-    if reldiff(got, exp) > TOL:
+    if rds(got, exp) > TOL:
         raise Violation("transform-product", "TransformProduct(x1*x2..) != prod T_i(x_i)")
     nt = ((not ref.abelian) or ref.magnetic) and rank >= 2
     nontriv_t = not (pgroup.transform_is_trivial(dTR) and pgroup.transform_is_trivial(dInv))
     return ok(nt, *(_labels(spec, ref, used) + [
-        f"rank={rank}", f"nlead={len(case['lead'])}", "complex" if case["cplx"] else "real",
+        f"rank={rank}", f"nlead={len(case['lead'])}", "complex" if case["cplx"] else "real", f"scale={scale:g}",
         "law-asserted" if lawful else "law-not-promised(non-involutive/non-commuting transforms)",
         "transform-nontrivial" if nontriv_t else "transform-trivial",
         "perm" if (dTR["perm"] or dInv["perm"]) else None, "swap" if (dTR["swap"] or dInv["swap"]) else None,
